@@ -240,6 +240,22 @@ def scale_oplists(pid, seed):
                             {"k": "add", "i": 3, "rec": {"p": b, "u": "http://other.example/" + str(k) + "/", "ps": ["late" + str(k)], "us": [], "pat": None}, "cs": False, "mg": True, "via": "record", "extra": ex},
                             {"k": "add", "i": 4, "rec": {"p": a, "u": ua, "ps": ["late" + str(k)], "us": [], "pat": None}, "cs": True, "mg": True, "via": "record", "extra": ex},
                             {"k": "probe", "is": [1, 2, 3, 4], "extra": ex + ["late" + str(k) + ":1"]}])
+    if pid in ("C09", "C10"):
+        # nested URI prefixes across the inputs of a chain, later merges into the nested record, inputs re-observed
+        obo = {"p": "OBO", "u": "http://purl.obolibrary.org/obo/", "ps": [], "us": [], "pat": None}
+        go = {"p": "GO", "u": "http://purl.obolibrary.org/obo/GO_", "ps": [], "us": [], "pat": None}
+        go3 = {"p": "GO", "u": "http://purl.obolibrary.org/obo/GO_", "ps": ["go", "gomf"], "us": ["https://identifiers.org/GO:"], "pat": None}
+        ex = ["GO:1", "go:1", "gomf:1", "OBO:GO_1", "http://purl.obolibrary.org/obo/GO_1", "https://identifiers.org/GO:1", "http://purl.obolibrary.org/obo/x"]
+        for order in ([1, 2, 3], [2, 1, 3], [1, 2], [2, 1]):
+            out.append([{"k": "new", "recs": [obo], "delim": ":", "extra": ex}, {"k": "new", "recs": [go], "delim": ":", "extra": ex},
+                        {"k": "new", "recs": [go3], "delim": ":", "extra": ex},
+                        {"k": "chain", "is": order, "cs": True, "extra": ex}, {"k": "probe", "is": [1, 2, 3], "extra": ex},
+                        {"k": "add", "i": 4, "rec": {"p": "GO", "u": "http://purl.obolibrary.org/obo/GO_", "ps": ["late"], "us": ["http://late.example/GO_"], "pat": None},
+                         "cs": True, "mg": True, "via": "prefix", "extra": ex},
+                        {"k": "probe", "is": [1, 2, 3, 4], "extra": ex + ["late:1", "http://late.example/GO_1"]},
+                        {"k": "sub", "i": 4, "P": ["GO"], "extra": ex},
+                        {"k": "add", "i": 5, "rec": {"p": "GO", "u": "http://purl.obolibrary.org/obo/GO_", "ps": ["later"], "us": [], "pat": None}, "cs": True, "mg": True, "via": "record", "extra": ex},
+                        {"k": "probe", "is": [1, 2, 3, 4, 5], "extra": ex + ["later:1"]}])
     if pid in ("C11", "C10"):
         big110 = big_records(110)
         out.append([{"k": "new", "recs": big110, "delim": ":"},
@@ -851,10 +867,14 @@ def check(pid, tier, seed):
     from concurrent.futures import ThreadPoolExecutor
     apa_pool = ThreadPoolExecutor(1)
     apa_future = apa_pool.submit(apalache, pid, tier) if pid in APALACHE else None
-    for model, invs, extra in world.PLAN[pid]:
+    for entry in world.PLAN[pid]:
+        model, invs, extra = entry[:3]
+        only = entry[3] if len(entry) > 3 else None
+        if only and tier not in only:
+            continue
         # thorough: the large instance is model-checked without a dump; the behaviours to replay come from
         # the quick instance (whose dump is small enough to parse), all signature classes of it
-        runs = [(tier, True)] if tier == "quick" else [("thorough", False), ("quick", True)]
+        runs = [(tier, True)] if tier == "quick" else [("thorough", False)] if only else [("thorough", False), ("quick", True)]
         for mtier, dump in runs:
             res = world.model_check(model, mtier, invs, extra if mtier == tier else {k: v for k, v in extra.items()}, sz["mc_timeout"], want_dump=dump)
             models.append({"model": model, "instance": mtier,
